@@ -196,13 +196,22 @@ def opaque_attr(ex, obj: VOpaque, name, fr):
         return obj.info[name]
     if obj.kind == "ndflags" and name in ("writeable", "owndata", "c_contiguous", "f_contiguous", "aligned"):
         # a flag of an array: an unknown boolean, the same one every time it is read for that array (arrays the caller hands in may be
-        # read-only; nothing in the model changes a flag)
+        # read-only); a flag the code under test has SET keeps the value it was given
+        setv = getattr(ex.st.cell(obj.info["of"]), "flag_values", {}).get(name)
+        if setv is not None:
+            return setv
         return VBool(z3.Bool(f"{name}!array{obj.info['of'].addr}"))
     raise Unsupported(f"attribute {name!r} of boundary object {obj.kind}")
 
 
 def opaque_setattr(ex, obj, name, val, fr):
     if obj.kind == "ignore":
+        return None
+    if obj.kind == "ndflags":
+        c = ex.st.cell(obj.info["of"])
+        if not hasattr(c, "flag_values"):
+            c.flag_values = {}
+        c.flag_values[name] = val
         return None
     h = ex.cfg.lib_overrides.get(("opaque_setattr", obj.kind))
     if h is not None:
